@@ -388,7 +388,7 @@ def mod_trends(G: Builder, rng: Rng):
     G.teqs.append((T(u), add(mul(N(rng.choice([2.0, 1.0, -1.0])), T(t1)), mul(N(c1), T(v, rng.choice([0, -1]))))))
     G.teqs.append((T(v), sub(T(t2), mul(N(c2), T(u, rng.choice([0, -1, 1]))))))
     members = [u, v]
-    if rng.chance(0.5):
+    if rng.chance(0.25):
         w = G.fresh("u"); G.tvars.append(w); members.append(w)
         G.teqs.append((T(w), add(mul(N(0.5), T(u, -1)), mul(N(0.25), T(v)), mul(N(0.25), T(w, -1)))))
         # close the loop: v also reads w
@@ -484,13 +484,51 @@ def gen_hard_case(rng: Rng) -> dict:
     G.init[z] = (rng.choice([1.0, 0.0, 4.0]), None)
     G.init[w] = (rng.choice([1.0, 0.0]), None)
     G.tags += ["hard", kind]
-    return finish_case(G, False, flat, plan, split, solver)
+    case = finish_case(G, False, flat, plan, split, solver)
+    if solver == "neqs_levenberg":
+        # a user option: give up after 400 iterations instead of 5000 (most of these systems have no solution)
+        case["solver_settings"] = {"max_iterations": 400}
+    return case
+
+
+def gen_trend_case(rng: Rng) -> dict:
+    """growth mode, more than eight quantities declared in a random order, a recursive chain of stationary variables and
+    unit-root singles around exactly ONE simultaneous group (the blazer peels singletons and leaves one inner block, so
+    several groups would merge): a pair / triple of non-log variables fed by two trends with different drifts, or a pair of
+    log-variables with different growth rates -- the members of the block have different steady changes and arbitrary ids"""
+    nv = rng.weighted([(1, 3), (2, 1)])
+    G = Builder(nv)
+    extra = []
+    for _ in range(rng.randint(3, 7)):
+        mod_ar(G, rng, 1, False)                   # singles; links only go to earlier ones: a recursive chain
+    if rng.chance(0.4):
+        extra.append(mod_drift(G, rng))
+    if rng.chance(0.65):
+        extra += mod_trends(G, rng)
+    else:
+        mod_logtrends(G, rng)
+    for _ in range(rng.randint(0, 3)):
+        mod_ar(G, rng, 1, False)
+    plan = None
+    if G.fixchanges and rng.chance(0.3):
+        z, d = rng.choice(G.fixchanges)
+        plan = {"exogenized": [z], "endogenized": [d], "fixed_level": [], "fixed_change": []}
+        G.init[z] = (rng.choice([1.0, -2.0, 3.0]), rng.choice([0.5, -0.25, 1.0]))
+    declared = list(G.tvars)
+    rng.shuffle(declared); rng.shuffle(G.teqs)
+    G.tags.append("shuffled")
+    case = finish_case(G, False, False, plan, rng.choice([None, True, True, False]), rng.choice(list(SOLVERS)))
+    case["source"] = case["source"].replace("!transition-variables\n    " + ", ".join(G.tvars),
+                                            "!transition-variables\n    " + ", ".join(declared), 1)
+    return case
 
 
 def gen_case(rng: Rng, force=None) -> dict:
     """a generated model with its flags, parameters, initial values and (possibly) a steady plan"""
     if force and force.get("hard"):
         return gen_hard_case(rng)
+    if force and force.get("trends"):
+        return gen_trend_case(rng)
     linear = rng.chance(0.4) if force is None else force.get("linear", False)
     flat = rng.chance(0.35) if force is None else force.get("flat", False)
     nv = rng.weighted([(1, 5), (2, 3), (3, 2)])
@@ -513,10 +551,9 @@ def gen_case(rng: Rng, force=None) -> dict:
         if (fam == "drift" or rng.chance(0.2)) and not flat: extra.append(mod_drift(G, rng))
         if fam == "loglin": mod_loglin(G, rng, flat)
     # blocks whose members have different steady changes, in models with more than eight quantities, declared in a random order
-    trends = (not flat) and (bool(force and force.get("trends")) or rng.chance(0.3))
+    trends = (not flat) and rng.chance(0.2)
     if trends:
-        for _ in range(rng.randint(1, 2)):
-            extra += mod_trends(G, rng)
+        extra += mod_trends(G, rng)
         if not linear and rng.chance(0.5):
             mod_logtrends(G, rng)
         if len(G.tvars) < 10:
@@ -680,6 +717,7 @@ def solve(m, plan, case, spy=True):
         name = case.get("solver") or "neqs_levenberg"
         if spy: kwargs["solver"] = SPY[name]
         elif name != "neqs_levenberg": kwargs["solver"] = name      # the public option, exactly as a user passes it
+        if case.get("solver_settings"): kwargs["solver_settings"] = dict(case["solver_settings"])
     _RECORD = []
     try:
         with contextlib.redirect_stdout(io.StringIO()), np.errstate(all="ignore"):
@@ -1144,6 +1182,7 @@ def solve_two_step(m, plan, case):
         if plan is not None: kwargs["plan"] = plan
         if case["split"] is not None: kwargs["split_into_blocks"] = case["split"]
         kwargs["solver"] = SPY[case.get("solver") or "neqs_levenberg"]
+        if case.get("solver_settings"): kwargs["solver_settings"] = dict(case["solver_settings"])
     per_variant = []
     try:
         with contextlib.redirect_stdout(io.StringIO()), np.errstate(all="ignore"):
@@ -1452,7 +1491,8 @@ def run(ctx: Ctx):
                 "extrema or no real root, product-sum systems, overdetermining plans) from good and bad starting points with both solvers; "
                 "multi-step sessions on one model object (override/reset of the equality tolerance, solver_settings tolerances, parameter "
                 "re-assignments, per-call linear/flat overrides in both directions on models created with either flag), each completed "
-                "solve judged against the options in force at that call; exhaustive flag-resolution table. "
+                "solve judged against the options in force at that call; exhaustive flag-resolution table; growth-mode models with more than eight "
+                "quantities declared in random order around one simultaneous block whose members have different steady changes. "
                 "distinct_nontrivial = distinct (linear, flat, variants, split, module list, plan?, #equations, solver) among "
                 "solved cases, plus distinct non-constant path requests")
     for path, payload in corpus_cases():
@@ -1472,7 +1512,6 @@ def run(ctx: Ctx):
         force = None
         if i % 7 == 3: force = {"linear": True, "flat": False}
         if i % 7 == 5: force = {"linear": False, "flat": False}
-        if i % 7 in (1, 6): force = {"linear": False, "flat": False, "trends": True}
         case = gen_case(Rng(seed), force)
         case["gen_seed"], case["force"] = seed, force
         status = run_case(ctx, case, pending)
@@ -1488,6 +1527,18 @@ def run(ctx: Ctx):
     flush(ctx, pending)
     run_wrt(ctx, models)
     solved = ctx.counts.get("solved", 0)
+    # growth-mode models with more than eight quantities declared in a random order and one simultaneous block whose members
+    # have different steady changes (cheap: linear or log-linear blocks)
+    trng = ctx.rng.fork("trends")
+    for i in range(ctx.n(40, 400)):
+        seed = trng.next()
+        force = {"trends": True}
+        case = gen_case(Rng(seed), force)
+        case["gen_seed"], case["force"] = seed, force
+        run_case(ctx, case, pending)
+        if i % 4 == 0:
+            end_to_end_default_entry(ctx, case)
+    flush(ctx, pending); pending = []
     # hard starts / unsolvable systems / overdetermining plans, with every solver option: the solver has to either
     # raise or store a steady state that satisfies the equations
     hrng = ctx.rng.fork("hard")
@@ -1530,7 +1581,7 @@ def search(ctx: Ctx, seeds):
         if len(ctx.failures) >= 3:
             break
         seed = rng.next()
-        force = {"hard": True} if i % 3 == 2 else None
+        force = {"hard": True} if i % 3 == 2 else ({"trends": True} if i % 3 == 1 else None)
         case = gen_case(Rng(seed), force); case["gen_seed"], case["force"] = seed, force
         run_case(ctx, case, pending, with_model=False)
         if len(ctx.failures) >= 3:
